@@ -99,18 +99,18 @@ theorem sat_example : Sat asg (encodeWalks st cfg ub) :=
 example : (encodeWalks st cfg ub).cols.length = 15 ∧ (encodeWalks st cfg ub).rows.length = 23 := by
   decide
 
-theorem decode_example : decodeWalkLayer st asg 0 = ["s", "a", "a", "a", "t"] := by decide
+theorem decode_example : decodeWalkLayer st asg 0 = ["s", "a", "a", "a", "t"] := by decide +kernel
 
 /-- the layer leaves the source, so the exactness clause of `walkcore_sound` applies -/
 theorem leaves_source : ∃ v ∈ st.g.succ st.source, multOf asg 0 (st.source, v) ≠ 0 :=
-  ⟨"s", by decide, by decide⟩
+  ⟨"s", by decide, by decide +kernel⟩
 
 example := walkcore_sound st cfg ub asg st_wf sat_example 0 (by decide)
 
 /-- the traversal counts of the decoded walk are exactly the multiplicities: the loop is used twice -/
 example : traversals ("source" :: decodeWalkLayer st asg 0 ++ ["sink"]) ("a", "a") = 2 := by
   have := (walkcore_sound st cfg ub asg st_wf sat_example 0 (by decide)).2.2 leaves_source ("a", "a")
-  exact this.trans (by decide)
+  exact this.trans (by decide +kernel)
 
 example : ValidRoute base [] [] ["s", "a", "a", "a", "t"] := by
   have := (walk_routes_valid base [] [] cfg ub asg base_wf sat_example 0 (by decide)).2
